@@ -654,7 +654,9 @@ impl World for RngWorld {
         if !self.cfg.real {
             out.fault("simulated_generator_draw");
             let drawn: Vec<u8> = self.ledger.borrow().draws[before..].concat();
-            out.note(&format!("call {} drew {} component {}", info.name, drawn.len(), hex(&co.component[..co.component.len().min(16)])));
+            // the value itself is never noted: an implementation that obtains (part of) its
+            // randomness elsewhere must not make the run digest irreproducible
+            out.note(&format!("call {} drew {} component_len {}", info.name, drawn.len(), co.component.len()));
             // The seam's per-call judgement. An entry point that drew fewer bytes than
             // documented, or whose output is not the documented image of its draw, is an
             // *anomaly*; it becomes a violation only with sound evidence that the value is
